@@ -227,9 +227,15 @@ def source_columns(rep, prog, rule):
 
 
 def run(rep, tier):
-    cfgs = ["x86"] if tier == "quick" else ["x86", "x86-rayon", "arm", "wasm"]
+    cfgs = ["x86", "x86-rayon"] if tier == "quick" else ["x86", "x86-rayon", "arm", "wasm"]
     for cfg, prog in programs(cfgs):
         rep.set_cfg(cfg)
+        if "rayon" in cfg:
+            # bands of a threaded nearest-neighbour pass must continue the accumulated row positions
+            from . import c08
+            rep.call(c08.float_restart, rep, prog, "C11.band-rows")
+            if tier == "quick":
+                continue
         rep.call(axis_rule, rep, prog, "C11.axis")
         rep.call(index_rules.nearest_index, rep, prog, "C11.index", strict=True)
         rep.call(copy_only, rep, prog, "C11.copy")
